@@ -10,14 +10,18 @@
   every token boundary a blank, or a run of blanks of any kind, can be inserted, removed or exchanged
   without changing any token (`blank_insertion`, `blank_run_insertion`, `blank_run_relayout`); for
   space, tab and CR the token lists are equal outright, so the whole pipeline (print, final state, error
-  with its line) is unchanged (`pipeline_blank_insertion`).  That a newline moves only line numbers
-  *through the parser and interpreter*, and comment insertion between statements, are decided
-  metamorphically by the C11 check (six layouts per program).
+  with its line) is unchanged (`pipeline_blank_insertion`).  **Newlines through the parser and interpreter** (last part of the
+  file): both treat source locations as labels (`parse_relabel`, `runLoop_relabel` in `Lemmas/Relabel*.lean`), so two token lists
+  that differ in line numbers only end the same way up to reported line numbers (`run_of_tokens_up_to_lines`), and a run of blanks of
+  ANY kind can be inserted, removed or exchanged at a token boundary without changing the outcome of the whole pipeline up to
+  reported line numbers (`pipeline_blank_run_insertion`, `pipeline_blank_run_relayout`).  Comment insertion between statements is
+  decided metamorphically by the C11 check (six layouts per program); `comment_inert` is the one-step fact.
 -/
 import Pakhi.Lemmas.Lexer
 import Pakhi.Lemmas.Relayout
 import Pakhi.Model.Parser
 import Pakhi.Model.Interp
+import Pakhi.Lemmas.RelabelP3
 
 namespace Pakhi
 namespace C11
@@ -159,6 +163,90 @@ example : Boundary [] ['৫', '-'] ['১'] :=
   .step (t? := some ⟨.num _, ['৫'], 1, []⟩) (n := 1) (l := 0) (by rfl) (by decide)
     (.step (t? := some ⟨.minus, ['-'], 1, []⟩) (n := 1) (l := 0) (by rfl) (by decide) (.done _ _))
 
+
+/-- **a run depends on line numbers only through the locations it reports**: two token lists that differ in line numbers only give
+    the same outcome up to reported line numbers — through the parser (module loading included) and the interpreter, for every world,
+    collection schedule and fuel -/
+theorem run_of_tokens_up_to_lines (ctx : PCtx) (pf : Nat) (mode : GcMode) (fuel : Nat) (w : World) (ts' ts : List Token)
+    (h : ts'.map noLine = ts.map noLine) :
+    noLineRes (match parse ctx pf ts' with
+      | .ok prog => runLoop prog mode fuel 0 prog (St.init w)
+      | .err e => .err e | .panic s => .panic s | .fuel => .fuel) =
+    noLineRes (match parse ctx pf ts with
+      | .ok prog => runLoop prog mode fuel 0 prog (St.init w)
+      | .err e => .err e | .panic s => .panic s | .fuel => .fuel) := by
+  have hp' := parse_relabel dropLine dropLine_idem ctx pf ts'
+  have hp := parse_relabel dropLine dropLine_idem ctx pf ts
+  have hts : ts'.map (relTok dropLine) = ts.map (relTok dropLine) := h
+  rw [hts] at hp'
+  have hpp : ResEq dropLine (relL dropLine) (parse ctx pf ts') (parse ctx pf ts) := hp'.symm.trans hp
+  revert hpp
+  generalize parse ctx pf ts' = p'
+  generalize parse ctx pf ts = p
+  intro hpp
+  cases p' <;> cases p <;> simp only [ResEq, Res.rel_ok, Res.rel_err, Res.rel_panic, Res.rel_fuel] at hpp ⊢ <;>
+    first
+      | rfl
+      | (cases hpp; done)
+      | skip
+  · rename_i prog' prog
+    injection hpp with hpp
+    have r' := runLoop_relabel dropLine prog' mode fuel 0 prog' (St.init w)
+    have r := runLoop_relabel dropLine prog mode fuel 0 prog (St.init w)
+    rw [← noLineRes_rel (runLoop prog' mode fuel 0 prog' (St.init w)), ← noLineRes_rel (runLoop prog mode fuel 0 prog (St.init w)),
+      ← r', ← r, hpp]
+  · rename_i e' e
+    injection hpp with hpp
+    have h1 := noLineRes_rel (.err e')
+    have h2 := noLineRes_rel (.err e)
+    simp only [Res.rel_err] at h1 h2
+    rw [← h1, ← h2, hpp]
+  · injection hpp with hpp; subst hpp; rfl
+
+/-- the same from the source text: if two sources have the same tokens up to line numbers, the whole pipeline ends the same way up to
+    reported line numbers -/
+theorem pipeline_of_same_tokens (ctx : PCtx) (pf : Nat) (mode : GcMode) (fuel : Nat) (w : World) (a b : Str)
+    (h : stripRes (tokenize a ctx.mainPath) = stripRes (tokenize b ctx.mainPath)) :
+    noLineRes (pipeline ctx pf mode fuel w a) = noLineRes (pipeline ctx pf mode fuel w b) := by
+  unfold pipeline
+  revert h
+  generalize tokenize a ctx.mainPath = ta
+  generalize tokenize b ctx.mainPath = tb
+  intro h
+  cases ta <;> cases tb <;> simp only [stripRes] at h ⊢ <;>
+    first
+      | rfl
+      | (cases h; done)
+      | skip
+  · rename_i ts' ts
+    injection h with h
+    exact run_of_tokens_up_to_lines ctx pf mode fuel w ts' ts h
+  · rename_i e' e
+    injection h with h
+    simp only [noLineRes, h]
+  · injection h with h; subst h; rfl
+
+/-- **whitespace of any kind, newlines included, is inert for the whole pipeline**: inserting (or removing) a run of spaces, tabs, CRs
+    and newlines at a token boundary changes neither the printed text, nor the final variables and heap, nor the kind of ending, nor an
+    error's class, message and file — only reported line numbers may move -/
+theorem pipeline_blank_run_insertion (ctx : PCtx) (pf : Nat) (mode : GcMode) (fuel : Nat) (w : World) (s1 s2 bs : Str)
+    (hbs : ∀ b ∈ bs, isBlank b = true) (hcut : Boundary ctx.mainPath s1 s2) :
+    noLineRes (pipeline ctx pf mode fuel w (s1 ++ (bs ++ s2))) = noLineRes (pipeline ctx pf mode fuel w (s1 ++ s2)) :=
+  pipeline_of_same_tokens ctx pf mode fuel w _ _ (blank_run_insertion ctx.mainPath s1 s2 bs hbs hcut)
+
+/-- … and a non-empty run of blanks may be exchanged for any other non-empty run -/
+theorem pipeline_blank_run_relayout (ctx : PCtx) (pf : Nat) (mode : GcMode) (fuel : Nat) (w : World) (s1 s2 bs bs' : Str)
+    (hbs : ∀ b ∈ bs, isBlank b = true) (hbs' : ∀ b ∈ bs', isBlank b = true) (hne' : bs' ≠ [])
+    (hcut : Boundary ctx.mainPath s1 (bs ++ s2)) :
+    noLineRes (pipeline ctx pf mode fuel w (s1 ++ (bs' ++ s2))) = noLineRes (pipeline ctx pf mode fuel w (s1 ++ (bs ++ s2))) :=
+  pipeline_of_same_tokens ctx pf mode fuel w _ _ (blank_run_relayout ctx.mainPath s1 s2 bs bs' hbs hbs' hne' hcut)
+
+/-- non-vacuity: `৫-১` with a newline (and a tab) put after `৫` — the premises hold, so the two pipelines agree up to line numbers -/
+example (cwd : Str) (rf : Str → Option Str) (pf fuel : Nat) (mode : GcMode) (w : World) :
+    noLineRes (pipeline ⟨[], cwd, rf⟩ pf mode fuel w (['৫'] ++ (['\n', '\t'] ++ ['-', '১']))) =
+      noLineRes (pipeline ⟨[], cwd, rf⟩ pf mode fuel w (['৫'] ++ ['-', '১'])) :=
+  pipeline_blank_run_insertion ⟨[], cwd, rf⟩ pf mode fuel w ['৫'] ['-', '১'] ['\n', '\t'] (by decide)
+    (.step (t? := some ⟨.num _, ['৫'], 1, []⟩) (n := 1) (l := 0) (by rfl) (by decide) (.done _ _))
 
 end C11
 end Pakhi
